@@ -86,9 +86,8 @@ func checkInt(i int64) Value {
 }
 
 func checkFloat(f float64) Value {
-	if math.IsNaN(f) || math.IsInf(f, 0) {
-		unspecified("NaN or infinite result")
-	}
+	// NaN and the infinities are ordinary IEEE values: both backends print them as NaN / Infinity /
+	// -Infinity and compare them by the IEEE rules (every ordering with NaN is false)
 	if f == 0 && math.Signbit(f) {
 		unspecified("negative zero")
 	}
@@ -215,10 +214,7 @@ func eval(e *Expr, env *Env) Value {
 	case "/":
 		a, b := eval(e.Args[0], env), eval(e.Args[1], env)
 		num2("/", a, b)
-		if b.Num() == 0 {
-			unspecified("division by zero")
-		}
-		return checkFloat(a.Num() / b.Num())
+		return checkFloat(a.Num() / b.Num()) // float division: x/0 is an infinity or NaN
 	case "%":
 		a, b := eval(e.Args[0], env), eval(e.Args[1], env)
 		if a.K != Int || b.K != Int {
@@ -435,7 +431,7 @@ func evalFunc(e *Expr, env *Env) Value {
 			unspecified("round with %d digits", digits)
 		}
 		scaled := x * math.Pow(10, float64(digits))
-		if math.Abs(scaled) >= 1<<52 {
+		if math.IsNaN(scaled) || math.Abs(scaled) >= 1<<52 {
 			unspecified("round of a huge number")
 		}
 		if scaled < 0 && scaled-math.Floor(scaled) == 0.5 {
@@ -452,8 +448,8 @@ func evalFunc(e *Expr, env *Env) Value {
 			return args[0]
 		}
 		x := numArg(0)
-		if math.Abs(x) >= 1<<52 {
-			unspecified("floor/ceiling of a huge number")
+		if math.IsNaN(x) || math.Abs(x) >= 1<<52 {
+			unspecified("floor/ceiling of a huge number or NaN")
 		}
 		if e.Name == "floor" {
 			return I(int64(math.Floor(x)))
